@@ -1186,6 +1186,12 @@ func (w *world) get(ci int, list []ref, allowDup bool, seen map[*cell]readBack) 
 			run.Count("get_values_compared", 1)
 			c.nRead++
 			exp := show(c.cur)
+			if e.Value != nil && hasErr {
+				y := x()
+				y.Expected = exp
+				run.Violation("get:value-with-error-status", fmt.Sprintf("%s (%s, readable) is answered with a value AND the error status %d: a controller reads a non-zero status as a failed read", c.ctor, c.format, *e.Status), y)
+				continue
+			}
 			if e.Value == nil {
 				y := x()
 				y.Expected = exp
